@@ -221,6 +221,7 @@ def _special_cases():
         for s in (ch, ch + "hello", "hello" + ch, "he" + ch + "llo", ch + ";" + ch, ch * 2 + "\\" + ch, "a," + ch):
             out.append({"path": "codec", "s": s})
             out.append({"path": "prop", "name": "summary", "s": s})
+            out.append({"path": "prop", "name": ["CONTACT", "REQUEST-STATUS", "RELATED-TO", "TZNAME", "RESOURCES", "COLOR"][len(s) % 6], "s": s})
             out.append({"path": "catcodec", "items": [s, "x"]})
             out.append({"path": "cat", "items": ["x", s]})
     return out
@@ -240,6 +241,8 @@ def _fold_boundary_cases():
                         continue
                     s_ = filler * pos + ch + filler * 12
                     out.append({"path": "prop", "name": "summary", "s": s_})
+                    if off % 5 == 0:
+                        out.append({"path": "prop", "name": "REQUEST-STATUS", "s": s_})
                     if off % 3 == 0:
                         out.append({"path": "prop", "name": "X-VERIF-LONG-NAME", "s": s_})
                         out.append({"path": "cat", "items": [s_, "x"]})
@@ -255,7 +258,9 @@ long_text = st.tuples(st.sampled_from([""] * 6 + SPECIALS), st.lists(_long_alpha
 
 
 def _hyp_cases():
-    names = st.sampled_from(["summary", "description", "x-verif", "COMMENT", "location"])
+    # every TEXT property of RFC 5545 (own list, not read from the library's tables) and extension names
+    names = st.sampled_from(["summary", "description", "x-verif", "COMMENT", "location", "CONTACT", "REQUEST-STATUS", "RELATED-TO", "UID", "TZNAME", "STATUS", "TRANSP",
+                             "CLASS", "ACTION", "PRODID", "VERSION", "CALSCALE", "METHOD", "RESOURCES", "X-WR-CALNAME", "NAME", "COLOR"])
     return st.one_of(
         st.builds(lambda s: {"path": "codec", "s": s}, long_text),
         st.builds(lambda s, n: {"path": "prop", "name": n, "s": s}, long_text, names),
@@ -289,6 +294,10 @@ def streams(tier):
         out.append(Stream(f"prop-exhaustive-{nm}", "enum", total(L_prop), 16,
                           (lambda nm: lambda i: {"path": "prop", "name": nm, "s": nth_string(i, L_prop)})(nm),
                           True, True))
+    # every other TEXT property name of RFC 5545 / 7986 (own list): the value type is chosen per name from a table
+    for nm in ["CONTACT", "REQUEST-STATUS", "RELATED-TO", "UID", "LOCATION", "COMMENT", "STATUS", "TRANSP", "CLASS", "ACTION", "PRODID", "TZNAME", "RESOURCES", "NAME", "COLOR"]:
+        out.append(Stream(f"prop-exhaustive-short-{nm}", "enum", total(3), 4,
+                          (lambda nm: lambda i: {"path": "prop", "name": nm, "s": nth_string(i, 3)})(nm), True, True))
     out.append(Stream("catcodec-exhaustive", "enum", ncat, 8, lambda i: _cat_case(i, "catcodec", c1, c2), True, True))
     out.append(Stream("cat-exhaustive", "enum", ncat, 8, lambda i: _cat_case(i, "cat", c1, c2), True, True))
     out.append(Stream("special-characters", "fixed", 0, 2, _special_cases, True, False))
